@@ -111,6 +111,7 @@ def _bounded():
 
 
 BOUNDED = _bounded()
+SHARDS = dict(_rectify.SHARDS)
 TRUSTED = ["str.find contract (via iter_indices_of_newlines, C31)"] + list(_rectify.TRUSTED)
 NOT_COVERED = ["source-slice bounds and literal-text equality (3rd/4th conjunct of the property) are decided only for the "
                "raw templater (by construction) and bounded for python/jinja/placeholder slicers",
